@@ -334,6 +334,16 @@ theorem Prov.setRing {T U : List Nat} {s : Sys} (h : Prov T U s) (t : Nat) (r : 
 theorem Prov.withG {T U : List Nat} {s : Sys} (h : Prov T U s) (g : Ghost) : Prov T U (s.withG g) :=
   ⟨h.spans, h.adapters, h.threads, h.rxs, h.cyc, h.coll, h.carried⟩
 
+theorem Prov.withParked {T U : List Nat} {s : Sys} (h : Prov T U s) (x : List Nat) :
+    Prov T U ({ s with parkedCancels := x } : Sys) :=
+  ⟨h.spans, h.adapters, h.threads, h.rxs, h.cyc, h.coll, h.carried⟩
+
+theorem Prov.noteParked {T U : List Nat} {s : Sys} (h : Prov T U s) (t cid : Nat) : Prov T U (s.noteParked t cid) := by
+  unfold Sys.noteParked
+  split
+  · exact h
+  · exact h.withParked _
+
 theorem Prov.sendCmd {T U : List Nat} {s : Sys} (h : Prov T U s) (t : Nat) (cmd : Cmd) (forced : Bool) (hc : CmdOk T cmd) :
     Prov T U (s.sendCmd t cmd forced) := by
   unfold Sys.sendCmd
